@@ -204,8 +204,17 @@ class Cx(object):
 # ---------------------------------------------------------------------------
 # static typing (width, signed) mirroring the documented rule
 # ---------------------------------------------------------------------------
+def _gdef(cx, name):
+    for g_ in cx.prog.prog.get("globals", []):
+        if g_["n"] == name:
+            return g_
+    raise RefError("unknown stand-alone field " + name)
+
+
 def swidth(e, cx):
     t = e["t"]
+    if t == "g":
+        return _gdef(cx, e["n"])["w"]
     if t == "f":
         f = cx.ftype(cx.resolve(e["p"]))
         return scalar_type(cx.prog, f)[0]
@@ -249,6 +258,8 @@ def sum_width(elem_w, n):
 
 def ssigned(e, cx):
     t = e["t"]
+    if t == "g":
+        return bool(_gdef(cx, e["n"])["s"])
     if t == "f":
         f = cx.ftype(cx.resolve(e["p"]))
         return scalar_type(cx.prog, f)[1]
@@ -281,6 +292,14 @@ def _ext(u, w, to, signed):
 def ev(e, cx, ctx=-1):
     """returns (unsigned bit pattern, width, signed)"""
     t = e["t"]
+    if t == "g":
+        # stand-alone field: its current value travels in the root tree under "$g"
+        g_ = _gdef(cx, e["n"])
+        try:
+            v = cx.tree["$g"][e["n"]]
+        except (KeyError, TypeError):
+            raise RefError("no value for stand-alone field " + e["n"])
+        return (v & mask(g_["w"]), g_["w"], bool(g_["s"]))
     if t == "f":
         rp = cx.resolve(e["p"])
         f = cx.ftype(rp)
